@@ -1,10 +1,12 @@
 """Orchestration of one property check: proof audit, correspondence run, classification,
 replay files and evidence.  See /verif/DESIGN.md sections 3.3 - 3.4."""
 import fcntl
+import glob
 import hashlib
 import json
 import os
 import re
+import shutil
 import subprocess
 import sys
 import time
@@ -58,6 +60,93 @@ def sh(cmd, cwd=None, env=None, timeout=3600):
                        timeout=timeout)
     return p.returncode, p.stdout
 
+
+
+# ----------------------------------------------------------------------------- coverage-guided search
+
+FUZZ_TARGET_DIR = os.path.join(BUILD, "fuzz")
+FUZZ_CORPUS = os.path.join(BUILD, "fuzz-corpus")
+
+
+def _src_key(tier):
+    h = hashlib.sha1()
+    files = sorted(glob.glob("/repo/src/*.rs")) + ["/repo/Cargo.toml", "/repo/Cargo.lock"]
+    files += sorted(glob.glob(os.path.join(HARNESS, "src", "*.rs"))) + sorted(glob.glob(os.path.join(HARNESS, "fuzz", "fuzz_targets", "*.rs")))
+    files += [os.path.join(HARNESS, "fuzz", "Cargo.toml"), os.path.abspath(__file__)]
+    for f in files:
+        try:
+            h.update(f.encode() + b"\0" + open(f, "rb").read())
+        except OSError:
+            pass
+    h.update(tier.encode())
+    return h.hexdigest()[:16]
+
+
+def fuzz_lines(tier, seed):
+    """Coverage-guided search for inputs (libFuzzer via cargo-fuzz, CMP-guided): operation sequences that
+    reach new code in /repo's working tree, found once per source state and shared by all
+    properties' checks.  Returns (rendered op lines, info).  The corpus is only a source of *cases*: each
+    runs through implementation, model and judge like every generated case.  Call with the lock held."""
+    info = {"engine": "libFuzzer (libfuzzer-sys; sancov edges, counters and compare tracing on the libmctp crate only; value profile), target harness/fuzz/fuzz_targets/ops.rs"}
+    key = _src_key(tier)
+    cdir = os.path.join(FUZZ_CORPUS, key)
+    mind = os.path.join(cdir, "min")
+    info["source_key"] = key
+    if not os.path.exists(os.path.join(cdir, "done")):
+        t0 = time.time()
+        env = {"CARGO_TARGET_DIR": FUZZ_TARGET_DIR, "CARGO_NET_OFFLINE": "true"}
+        try:
+            rc, out = sh(["cargo", "+nightly", "build", "--release", "--offline"], cwd=os.path.join(HARNESS, "fuzz"), env=env, timeout=1800)
+        except (OSError, subprocess.TimeoutExpired) as e:
+            rc, out = 1, str(e)
+        if rc != 0:
+            info["status"] = "unavailable: build of the fuzz target failed: " + out[-300:]
+            return [], info
+        binp = os.path.join(FUZZ_TARGET_DIR, "release", "ops")
+        # older corpora: keep the two most recent
+        old = sorted(glob.glob(os.path.join(FUZZ_CORPUS, "*")), key=os.path.getmtime)
+        for d in old[:-2]:
+            shutil.rmtree(d, ignore_errors=True)
+        raw = os.path.join(cdir, "raw")
+        work = os.path.join(cdir, "work")
+        for d in (raw, mind, work):
+            shutil.rmtree(d, ignore_errors=True)
+            os.makedirs(d)
+        # start from the committed seed corpus (a long run on the tree the model was written against,
+        # reduced to one input per covered edge): the search then only has to find what is new
+        seeds = os.path.join(VERIF, "corpus", "fuzz-seeds")
+        n_seeds = 0
+        if os.path.isdir(seeds):
+            for fn in os.listdir(seeds):
+                shutil.copy(os.path.join(seeds, fn), os.path.join(raw, "seed-" + fn))
+                n_seeds += 1
+        info["seed_inputs"] = n_seeds
+        secs, jobs = (420, 14) if tier == "thorough" else (60, 12)
+        args = [binp, raw, "-max_total_time=%d" % secs, "-max_len=700", "-use_value_profile=1", "-detect_leaks=0", "-rss_limit_mb=0",
+                "-jobs=%d" % jobs, "-workers=%d" % jobs, "-reload=1", "-verbosity=0"]
+        try:
+            sh(args, cwd=work, timeout=secs * 3 + 120)
+            # keep one input per feature (edges, counters and compare-operand distances: an input that makes a
+            # comparison come out equal is kept even where the compiler left no branch behind)
+            rc, out = sh([binp, "-merge=1", "-use_value_profile=1", "-detect_leaks=0", "-rss_limit_mb=0", "-verbosity=0", mind, raw], cwd=work, timeout=1800)
+        except (OSError, subprocess.TimeoutExpired) as e:
+            info["status"] = "unavailable: fuzz run failed: " + str(e)[-300:]
+            return [], info
+        shutil.rmtree(work, ignore_errors=True)
+        info["fuzz_seconds"] = round(time.time() - t0, 1)
+        n_raw = len(os.listdir(raw))
+        shutil.rmtree(raw, ignore_errors=True)
+        with open(os.path.join(cdir, "done"), "w") as f:
+            json.dump({"raw_corpus": n_raw, "kept": len(os.listdir(mind)), "seconds": info["fuzz_seconds"], "jobs": jobs, "per_job_seconds": secs}, f)
+    try:
+        info.update(json.load(open(os.path.join(cdir, "done"))))
+    except (OSError, ValueError):
+        pass
+    rc, out = sh([EXEC_BIN, "--render", mind])
+    lines = [l for l in out.splitlines() if l.strip()] if rc == 0 else []
+    info["status"] = "ok"
+    info["lines"] = len(lines)
+    return lines, info
 
 # ----------------------------------------------------------------------------- builds
 
@@ -611,39 +700,39 @@ def second_pass(prop, lines, fams, results, rnd):
     """ops derived from what the implementation returned in the first pass"""
     extra = []
     if prop == "C01":
-        for l, (o, m, iv, mv) in zip(lines, results):
+        for src, (l, (o, m, iv, mv)) in enumerate(zip(lines, results)):
             t = l.split()
             if t[0] in ("enc", "encr") and o.startswith("ok"):
                 st, n, b = _enc_parts(o)
                 pkt = gen.hx(b[:n])
                 for cid in _receivers(lines):
-                    extra.append(("rtdec %s %s %s %s" % (cid, t[1], " ".join(t[2:-1]), pkt), "rt:" + t[3]))
+                    extra.append(("rtdec %s %s %s %s" % (cid, t[1], " ".join(t[2:-1]), pkt), "rt:" + t[3], src))
     if prop in ("C16", "C03", "C04", "C05", "C06", "C07", "C08"):
         # the same call again into a buffer of exactly the reported length, and one byte more
-        for l, (o, m, iv, mv) in zip(lines, results):
+        for src, (l, (o, m, iv, mv)) in enumerate(zip(lines, results)):
             t = l.split()
             if t[0] in ("enc", "encr") and o.startswith("ok"):
                 st, n, b = _enc_parts(o)
                 if prop != "C16" and rnd.random() < 0.6:
                     continue
                 for extra_len, fill in ((0, 0x00), (0, 0xFF), (1, 0xA5)):
-                    extra.append((" ".join(t[:-1]) + " " + gen.hx([fill] * (n + extra_len)), "exact-fit:" + t[3]))
+                    extra.append((" ".join(t[:-1]) + " " + gen.hx([fill] * (n + extra_len)), "exact-fit:" + t[3], src))
                 if prop in ("C03", "C16") and rnd.random() < 0.5:
                     # the buffer already holds this very packet, damaged in its last byte / one other byte
                     own = bytearray(b[:n])
                     own[-1] ^= 0xFF
-                    extra.append((" ".join(t[:-1]) + " " + gen.hx(bytes(own) + b[n:]), "own-output-damaged:" + t[3]))
+                    extra.append((" ".join(t[:-1]) + " " + gen.hx(bytes(own) + b[n:]), "own-output-damaged:" + t[3], src))
                     own = bytearray(b[:n])
                     own[rnd.randrange(n)] ^= 1 << rnd.randrange(8)
-                    extra.append((" ".join(t[:-1]) + " " + gen.hx(bytes(own) + b[n:]), "own-output-damaged:" + t[3]))
+                    extra.append((" ".join(t[:-1]) + " " + gen.hx(bytes(own) + b[n:]), "own-output-damaged:" + t[3], src))
                 if prop in ("C04", "C16") and rnd.random() < 0.5:
                     # buffers that are too short: whatever happens, no success with a wrong length
                     for short in (n - 1, n - 2, 9, 8, 4, 0):
                         if 0 <= short < n:
-                            extra.append((" ".join(t[:-1]) + " " + gen.hx([0x3C] * short), "too-short:" + t[3]))
+                            extra.append((" ".join(t[:-1]) + " " + gen.hx([0x3C] * short), "too-short:" + t[3], src))
     if prop == "C04":
         k = 0
-        for l, (o, m, iv, mv) in zip(lines, results):
+        for src, (l, (o, m, iv, mv)) in enumerate(zip(lines, results)):
             t = l.split()
             if t[0] in ("enc", "encr") and o.startswith("ok"):
                 st, n, b = _enc_parts(o)
@@ -654,7 +743,7 @@ def second_pass(prop, lines, fams, results, rnd):
                 if k % 50 == 0:
                     ks = range(3, n + 1)
                 for j in ks:
-                    extra.append(("len %s" % gen.hx(b[:j]), "probe:%d" % n))
+                    extra.append(("len %s" % gen.hx(b[:j]), "probe:%d" % n, src))
     return extra
 
 
@@ -713,6 +802,8 @@ def check_property(prop, tier, seed, max_search=20000):
             cov["explanation"] = "the tie to the code could not be established: executor does not build"
             write_evidence(res)
             return res
+        fz_lines, fz_info = ([], {"status": "off (VERIF_NO_FUZZ)"}) if os.environ.get("VERIF_NO_FUZZ") else fuzz_lines(tier, seed)
+        cov["coverage_guided_search"] = fz_info
 
     # 2b. static part of the tie: the state the code can carry must be the state the model has
     static_breaks = [] if prop in ("C18", "C19") else state_inventory.check()
@@ -736,19 +827,30 @@ def check_property(prop, tier, seed, max_search=20000):
     lit_pairs = litdir.directed(pairs, new_lits, seed, cap=120000 if tier == "thorough" else 45000)
     pairs += lit_pairs
     cov["literal_directed"] = {"new_literals_in_src": new_lits, "cases": len(lit_pairs)}
+    pairs += [(l, "fuzz-corpus") for l in fz_lines]
     lines = [p[0] for p in pairs]
     fams = [p[1] for p in pairs]
     try:
         results = evaluate(lines)
         extra = second_pass(prop, lines, fams, results, rnd)
         if extra:
-            lines2 = [l for l in lines if l.startswith("ctx ") or l.startswith("seteid ") or l.startswith("setuuid ")]
-            base = len(lines2)
-            lines2 += [e[0] for e in extra]
+            # second run: every state-changing operation again, in the original order, and each derived
+            # operation right after the operation it was derived from (so that it meets the same state)
+            by_src = {}
+            for e in extra:
+                by_src.setdefault(e[2], []).append(e)
+            lines2, fams2 = [], []
+            for i, l in enumerate(lines):
+                if l.startswith(("ctx ", "seteid ", "setuuid ", "proc ")):
+                    lines2.append(l)
+                    fams2.append("setup2")
+                for e in by_src.get(i, ()):
+                    lines2.append(e[0])
+                    fams2.append(e[1])
             r2 = evaluate(lines2)
             off = len(lines)
             lines = lines + lines2
-            fams = fams + ["setup2"] * base + [e[1] for e in extra]
+            fams = fams + fams2
             results = results + r2
     except RuntimeError as e:
         p = write_replay(prop, "run", [], -1, None, None, str(e)[:3000])
